@@ -386,6 +386,7 @@ func CheckMySession(c SessCase) (vs hx.Vs, info sessInfo) {
 		info.classes["handler-panicked (C14)"] = true
 	default:
 	}
+	sweepSession(&vs, "mysql-session-log", lc, c, info)
 	return vs, info
 }
 
